@@ -7,6 +7,9 @@ import (
 	baskettypes "github.com/regen-network/regen-ledger/x/ecocredit/v3/basket/types/v1"
 	markettypes "github.com/regen-network/regen-ledger/x/ecocredit/v3/marketplace/types/v1"
 
+	sdk "github.com/cosmos/cosmos-sdk/types"
+
+	"verif/harness/chain"
 	"verif/harness/explore"
 	"verif/harness/ref"
 )
@@ -25,8 +28,46 @@ import (
 type C19Coins struct {
 	counters
 	noGhost
-	noState
 	FeePool string
+}
+
+// OnState: "balance subtraction never yields a negative value without an error", seen from the ledgers the
+// subtraction writes: no stored balance, supply, basket balance or order quantity is ever negative (a state that
+// holds one was produced by a subtraction that should have been an error).
+func (m *C19Coins) OnState(_ explore.Ghost, _ *chain.Chain, _ sdk.Context, s *chain.Snapshot) []V {
+	var out []V
+	neg := func(table, col, v, where string) {
+		if v == "" {
+			return
+		}
+		d, err := ref.Parse(v)
+		if err != nil {
+			return // malformed spellings are C01's business
+		}
+		m.inc("stored_amounts_checked")
+		if d.R.Sign() < 0 {
+			out = append(out, V{Kind: "C19/negative-amount-stored/" + table + "." + col, Detail: fmt.Sprintf("%s.%s of %s = %q: a subtraction went below zero without an error", table, col, where, v)})
+		}
+	}
+	for _, b := range s.Balances {
+		w := fmt.Sprintf("%s / %s", addrStr(b.Address), denomOf(s, b.BatchKey))
+		neg("BatchBalance", "tradable", b.TradableAmount, w)
+		neg("BatchBalance", "retired", b.RetiredAmount, w)
+		neg("BatchBalance", "escrowed", b.EscrowedAmount, w)
+	}
+	for _, sp := range s.Supplies {
+		w := denomOf(s, sp.BatchKey)
+		neg("BatchSupply", "tradable", sp.TradableAmount, w)
+		neg("BatchSupply", "retired", sp.RetiredAmount, w)
+		neg("BatchSupply", "cancelled", sp.CancelledAmount, w)
+	}
+	for _, bb := range s.BasketBalances {
+		neg("BasketBalance", "balance", bb.Balance, bb.BatchDenom)
+	}
+	for _, o := range s.SellOrders {
+		neg("SellOrder", "quantity", o.Quantity, fmt.Sprintf("order %d", o.Id))
+	}
+	return out
 }
 
 func (*C19Coins) Name() string { return "C19" }
